@@ -483,7 +483,10 @@ func (g *bhGenerator) genParam(h *histRun, t *bhTx) {
 	switch t.S {
 	case "erc20":
 		p := a.Erc20Keeper.GetParams(ctx)
-		if r.Chance(75) {
+		// a history with the v1.7.5 upgrade keeps x/erc20 enabled: the handler redeems every liquid token and calls
+		// log.Fatalf when a redeem fails ("erc20 module is disabled"), which ends the process — on every node alike,
+		// a chain halt and not a divergence, and nothing a harness in the same process can observe
+		if g.upgrade < 0 && r.Chance(75) {
 			set("EnableErc20", boolS(p.EnableErc20), boolS(!p.EnableErc20))
 		} else {
 			set("EnableEVMHook", boolS(p.EnableEVMHook), boolS(!p.EnableEVMHook))
